@@ -36,15 +36,23 @@ structure DecodeOK (be : Backend) (k m : Nat) (tol : List Nat → Prop) : Prop w
     ∃ d' p', be.reconstruct (eraseBufs dataP missing 0 bs) (eraseBufs parP missing k bs) missing dest bs = .ok (d', p') ∧
       d'.length = k ∧ p'.length = m ∧ (d' ++ p').getD dest [] = (dataP ++ parP).getD dest []
 
-/-- no-silent-corruption contract: whatever the missing list, a successful decode /
-    reconstruct returns the true payloads (for the destination, in the case of reconstruct). -/
+/-- no-silent-corruption contract: for any missing list the front end can pass (at most m
+    entries), the operation does not fault, and a successful decode / reconstruct returns the true
+    payloads (for the destination, in the case of reconstruct). -/
 structure DecodeSound (be : Backend) (k m : Nat) : Prop where
   decode : ∀ bs dataP parP missing d' p', IsStripe be k m bs dataP parP → MissingOK k m missing →
+    missing.length ≤ m →
     be.decode (eraseBufs dataP missing 0 bs) (eraseBufs parP missing k bs) missing bs = .ok (d', p') →
     d' = dataP
+  decode_nocrash : ∀ bs dataP parP missing, IsStripe be k m bs dataP parP → MissingOK k m missing →
+    missing.length ≤ m →
+    be.decode (eraseBufs dataP missing 0 bs) (eraseBufs parP missing k bs) missing bs ≠ .error .crash
   reconstruct : ∀ bs dataP parP missing dest d' p', IsStripe be k m bs dataP parP → MissingOK k m missing →
-    dest ∈ missing →
+    missing.length ≤ m → dest ∈ missing →
     be.reconstruct (eraseBufs dataP missing 0 bs) (eraseBufs parP missing k bs) missing dest bs = .ok (d', p') →
-    (d' ++ p').getD dest [] = (dataP ++ parP).getD dest []
+    d'.length = k ∧ p'.length = m ∧ (d' ++ p').getD dest [] = (dataP ++ parP).getD dest []
+  reconstruct_nocrash : ∀ bs dataP parP missing dest, IsStripe be k m bs dataP parP → MissingOK k m missing →
+    missing.length ≤ m → dest ∈ missing →
+    be.reconstruct (eraseBufs dataP missing 0 bs) (eraseBufs parP missing k bs) missing dest bs ≠ .error .crash
 
 end Lec
